@@ -9,6 +9,7 @@ from monitors import core, pipeline
 M_C01 = "get_clusters_post"
 M_DET = "get_clusters_determinism"
 M_C13 = "cluster_dimensionality_post"
+M_REUSE = "get_clusters_instance_reuse"
 
 _state = {"last": None}
 
@@ -92,6 +93,29 @@ def run_sbc_case(case, want_c13=True, determinism=True):
             sig = pipeline.cluster_signature(clusters)
             if want_c13:
                 pipeline.check_cluster_dimensionality(rec, M_C13, atoms, params, clusters, pipeline.changed_clusters())
+            # history independence: the same SBC *instance* used before with other (larger) radii must give the
+            # same answer as a fresh instance (C01: a function of structure, parameters and seed only) and its
+            # clusters must still satisfy C13
+            rrng = np.random.default_rng(case["seed"] + 5)
+            if rrng.random() < 0.4 and len(atoms) <= 160:
+                from monitors.pipeline import resolve_radii
+                base_r = resolve_radii(params.get("radii", "covalent"), atoms.get_atomic_numbers())
+                if base_r is not None and np.all(np.isfinite(base_r)):
+                    inst = matid.SBC()
+                    first = dict(params, radii=np.asarray(base_r) * 1.25)
+                    try:
+                        with core.suspend():
+                            inst.get_clusters(atoms, **first)
+                        reused = inst.get_clusters(atoms, **params)
+                        rec.call(M_REUSE); rec.judged(M_REUSE)
+                        if pipeline.cluster_signature(reused) != sig:
+                            rec.violation(M_REUSE, "C01|depends-on-instance-history", "an SBC instance that had clustered the same structure with other radii before "
+                                          "returns a different result than a fresh instance",
+                                          {"input": pipeline.describe(atoms), "params": {k: (v if not isinstance(v, np.ndarray) else v.tolist()) for k, v in params.items()}})
+                        if want_c13:
+                            pipeline.check_cluster_dimensionality(rec, M_C13, atoms, params, reused, {})
+                    except Exception as e:
+                        rec.note("reuse_exception:%s" % type(e).__name__)
             if determinism:
                 with core.suspend():
                     try:
